@@ -152,7 +152,7 @@ def isChannel(s, chantypes='#&!', channellen=50):
            '\x07' not in s and \
            s[0] in chantypes and \
            len(s) <= channellen and \
-           len(s.split(None, 1)) == 1
+           s.split() == [s] # no whitespace, not even around the name
 
 def areChannels(s, chantypes='#&!', channellen=50):
     """Like 'isChannel(x)' but for comma-separated list."""
